@@ -267,14 +267,14 @@ Definition step_wmsg (s : st) (pick : N) (wok : bool) : option (st * list obs) :
         | TResp _ e => let (s2, o) := complete s1 e (RResp m) in Some (s2, OSeen m :: o)
         | TBad _ => Some (s1, [OSeen m])
         | TAttr =>
-            match lookup pick (rec s) with
-            | Some c =>
-                if is_9003 c then let (s2, o) := complete s1 pick (RResp m) in Some (s2, OSeen m :: o)
-                else None
-            | None =>
-                if existsb (fun p => is_9003 (snd p)) (rec s) then None
-                else let (s2, o) := default_reply s1 m true wok in Some (s2, OSeen m :: o)
-            end
+            if existsb (fun p => is_9003 (snd p)) (rec s) then
+              match lookup pick (rec s) with
+              | Some c =>
+                  if is_9003 c then let (s2, o) := complete s1 pick (RResp m) in Some (s2, OSeen m :: o)
+                  else None
+              | None => None
+              end
+            else let (s2, o) := default_reply s1 m true wok in Some (s2, OSeen m :: o)
         | TOther _ has => let (s2, o) := default_reply s1 m has wok in Some (s2, OSeen m :: o)
         end
       else None
